@@ -489,6 +489,14 @@ func runPlan(p Plan) (vk.Outcome, error) {
 	if gcWanted && len(weaks) > 0 {
 		runtime.GC()
 		for i, w := range weaks {
+			// A popped element that is still reachable right after one collection is not yet a verdict: once in
+			// some hundred thousand plans (one shard of one thorough run, never reproducible from its plan) an
+			// element survived a cycle for reasons of the runtime's own (a frame scanned conservatively, a cycle
+			// already under way). What the deque retains stays reachable for ever, so a few more cycles decide.
+			for try := 0; try < 5 && w.Value() != nil; try++ {
+				time.Sleep(time.Millisecond)
+				runtime.GC()
+			}
 			if w.Value() != nil {
 				runtime.KeepAlive(r)
 				return out, vk.Violf("retained", "element %d was popped, yet it is still reachable after a garbage collection while the deque (len %d) is alive: the deque retains it", ids[i], r.d.Len())
